@@ -20,6 +20,7 @@ from . import kernel
 from .kernel import VERIF_DIR
 
 WORKERS = int(os.environ.get("VERIF_WORKERS", "16"))
+INIT_PATHS = {"E1": "sim.apisim:worker_init"}
 MAX_GROUPS_PER_CLASS = 2
 
 
@@ -131,6 +132,18 @@ def handle_violations(prop: str, engine: str, violations: list, tier: str):
             # fall back to the unminimised plan before giving up
             path = kernel.write_replay(prop, plan, v, r0.get("digest", ""))
             ok, out = replay_in_fresh_process(path)
+        if not ok and r0.get("jobspec"):
+            # not reproducible from the plan alone: the cause may lie in the plans that ran before it in the same job process
+            # (process-global state).  Replay the job prefix that ends with this plan.
+            js = r0["jobspec"]
+            k = r0["index"] - js["start"]
+            prefix = mod.make_plans(js)[: k + 1]
+            body = {"engine": plan.get("engine"), "plans": prefix, "init": INIT_PATHS.get(plan.get("engine"), "")}
+            path = kernel.write_replay(prop, body, v, r0.get("digest", ""))
+            ok, out = replay_in_fresh_process(path)
+            if ok:
+                log(f"  (violation class {v['vclass']} reproduces only together with the {k} plan(s) that ran before it in its job: "
+                    f"process-global state)")
         if ok:
             new_lines.append((path, v, len(rs), steps))
         else:
@@ -152,7 +165,15 @@ def cmd_replay(path: str, quiet=False) -> int:
     body = json.loads(Path(path).read_text())
     plan = body["plan"]
     mod = engine_module(plan["engine"])
-    r = mod.run_plan(plan)
+    if "plans" in plan:
+        # a job prefix: executed in order in this one process, the verdict is that of the last plan
+        if plan.get("init"):
+            kernel._resolve(plan["init"])()
+        r = None
+        for q in plan["plans"]:
+            r = mod.run_plan(q)
+    else:
+        r = mod.run_plan(plan)
     want = body["violation"]["vclass"]
     if r["status"] == "violation" and want in kernel.vclasses(r):
         log(f"REPRODUCED property={body['property']} vclass={want} digest={r.get('digest')}")
